@@ -57,11 +57,15 @@ type runner struct {
 	nProposed    int
 	maxRun       int
 	nReplaced    int
-	dumpEvery    int
+	nsteps       int
+	last         bool
 }
 
+// step records one operation with its observed result; the complete state is attached to every
+// third state-changing step and to the last one (a state difference also shows in later results).
 func (r *runner) step(op, obs string, withDump bool) {
-	if withDump {
+	r.nsteps++
+	if withDump && (r.nsteps%3 == 0 || r.last) {
 		r.steps = append(r.steps, fmt.Sprintf("S1 (%s) (%s) %s", op, obs, r.dump()))
 	} else {
 		r.steps = append(r.steps, fmt.Sprintf("S0 (%s) (%s)", op, obs))
@@ -216,6 +220,13 @@ func (r *runner) propose() {
 		}
 	}
 	r.c.Count(fmt.Sprintf("proposal:size-%s", bucket(len(out))))
+	longest := 0
+	for _, n := range run {
+		if n > longest {
+			longest = n
+		}
+	}
+	r.c.Count(fmt.Sprintf("proposal:longest-sender-run-%s", bucket(longest)))
 	r.lastProposal = out
 	var ids []string
 	for _, m := range out {
@@ -394,7 +405,8 @@ func (r *runner) finish(kind string) {
 
 func runScript(c *hx.Ctx, s Script, caseNo int, kind string) {
 	r := newRunner(c, s, caseNo)
-	for _, op := range s.Ops {
+	for i, op := range s.Ops {
+		r.last = i == len(s.Ops)-1
 		r.do(op)
 	}
 	r.finish(kind)
